@@ -3,7 +3,7 @@ from vlib import *
 from gens import *
 LEVEL = 'model_checking'
 # declared lengths: around 32, and where the 32-bit BIT count crosses each of its bytes (32, 8192, 2^21 bytes), the 2^29 clamp, beyond 2^32
-BIG = [0, 1, 31, 32, 33, 64, 8191, 8192, 8193, 65536, (1 << 21) - 1, 1 << 21, (1 << 24) + 3, (1 << 29) - 1, 1 << 29, (1 << 29) + 1, (1 << 32) + 32, (1 << 64) - 1]
+BIG = [0, 1, 31, 32, 33, 64, 8191, 8192, 8193, 65536, (1 << 21) - 1, 1 << 21, (1 << 24) + 3, (1 << 28) - 1, 1 << 28, (1 << 28) + (1 << 27) + 5, (1 << 29) - 1, 1 << 29, (1 << 29) + 1, (1 << 32) + 32, (1 << 64) - 1]
 
 def gen(c):
     rng = c.rng; th = c.tier == 'thorough'
@@ -72,11 +72,16 @@ def reused(c, p):
 
 def run(c):
     c.mc_bg('MC_Sponge', disabled=('DoCopy', 'DoSqueeze2', 'ReAbsorb'))
-    c.assumptions += ['message/name/customisation VALUES sampled; length classes (mod rate, block count), declared lengths around 32 and 2^29, name lengths around 32 enumerated',
+    c.assumptions += ['message/name/customisation VALUES sampled; length classes (mod rate, block count), declared lengths around 32 and 2^29, name lengths around 32 enumerated; absorb calls of 2^32 bytes and more are judged by the partition law only (one call = 1 GiB pieces), not by value',
                       'expected digests computed by TLC from spec/AsconModes.tla (Xof, Xofa, Hash, Hasha, XofFixed, CXof), anchored on reference KATs']
     p = gen(c)
     reused(c, p)
     c.tv(p, 'rel', 'hash', max_cost=20.0)
+    # one absorb call of 2^32 + r bytes that follows a partial block, against the same bytes in 1 GiB pieces
+    pb = Plan(); rng = c.rng
+    for kind, pre, lo in (('xof', 3, 2), ('xofa', 5, 0), ('prf', 7, 9)) + ((('xofa', 1, 6), ('xof', 7, 0), ('xofa', 0, 3)) if c.tier == 'thorough' else ()):
+        pb.case(['sp.big kind=%s pre=%s hi=1 lo=%d' % (kind, hx(pattern(rng, pre)), lo)], cost=30.0); c.distinct([(kind, 'big', pre, lo)])
+    c.tv(pb, 'rel', 'hashbig', max_cost=20.0)
     # the C++ classes hash, hasha, xof, xofa and the fixed-length templates compute the same functions
     import c17
     class Sub:
